@@ -150,10 +150,10 @@ Proof. repeat split; try (vm_compute; reflexivity). eexists. vm_compute. reflexi
 Definition tsB : list stok :=
   [SVar "C" None; SGap " = ("; SBra true "" "a" "" None; SGap "*"; SVar "X" (Some "-1"); SGap ") "; SKw "if"; SGap " ";
    SKw "not"; SGap " "; SVar "is_open" None; SGap " > 0 "; SKw "and"; SGap " "; SVar "Pin" None; SGap " "; SKw "else"; SGap " ";
-   SVerb "np.pi"; SGap " * "; SVar "W" (Some "1")].
+   SVerb "np.pi"; SGap " * "; SFun "np.sqrt" " "; SGap "("; SVar "W" (Some "1"); SGap ")"].
 Example tsB_wf :
-  wf tsB = true /\ render tsB = "C = ({a}*X[-1]) if not is_open > 0 and Pin else `np.pi` * W[1]" /\
-  code_text (render tsB) = Some "self._C[t] = (self._a[t]*self._X[t-1]) if not self._is_open[t] > 0 and self._Pin[t] else np.pi * self._W[t+1]".
+  wf tsB = true /\ render tsB = "C = ({a}*X[-1]) if not is_open > 0 and Pin else `np.pi` * np.sqrt (W[1])" /\
+  code_text (render tsB) = Some "self._C[t] = (self._a[t]*self._X[t-1]) if not self._is_open[t] > 0 and self._Pin[t] else np.pi * np.sqrt(self._W[t+1])".
 Proof. vm_compute. repeat split; reflexivity. Qed.
 Example tsA_code :
   code_text (render tsA) = Some "self._Yd[t+1] = self._alpha_1[t]*np.exp(self._is_open[t-12]) + min(self._Pin[t+2],1.5)/self._e[t] - self._not_X[t]**2 + 3*self._p[t-1] + (self._in_[t]-self._expo[t])".
